@@ -11,6 +11,7 @@ import (
 	"encoding/binary"
 	"encoding/json"
 	"fmt"
+	"hash/fnv"
 	"io"
 	"net/http"
 	"net/http/httptest"
@@ -284,8 +285,12 @@ func c15(env *Env, rep *Report) {
 	more := []string{"", "a", "alice@example.com", strings.Repeat("u", 300), "ünï-漢字", "al\"ice\nx", c15Noise(200), c15Noise(255), c15Noise(400)}
 	n, distinct := 0, 0
 	one := func(signMode bool, user string, c c15Case, full bool) {
+		// (every process mints its own specimen token, whose length varies by a character now and then: a case
+		// belongs to the process its name hashes to, not to a running count)
 		n++
-		if !env.mine(n) {
+		hh := fnv.New32a()
+		fmt.Fprintf(hh, "%v|%s|%s|%s", signMode, user, c.Class, c.Name)
+		if !env.mine(int(hh.Sum32() % 1000003)) {
 			return
 		}
 		distinct++
